@@ -8,7 +8,7 @@ EXTENDS Naturals, Sequences, FiniteSets, TLC
 
 Eps      == {"https", "http", "none", "noscheme", "badurl", "badurl2", "mixed", "dup"}
 Creds    == {"token", "none", "keycert", "keyonly", "certonly", "badpair"}
-CAs      == {"insecure", "ca", "none", "badca"}
+CAs      == {"insecure", "ca", "none", "badca", "insecure+ca"}   \* "insecure+ca": skip verification AND a CA bundle
 Rates    == {"zero", "ok", "negqps", "negburst", "qps>burst", "negdiv", "div"}
 Servings == {"none", "pair", "pair2", "mismatch", "certonly", "certonly2", "keyonly2", "garbage", "badca", "caonly"}   \* ("...2": material of a second key pair: matters when an object is applied over another one)
 Members  == SUBSET {"exempt", "mif", "tb", "gmif", "gtb"}
@@ -23,7 +23,7 @@ Default == [ep |-> "https", cred |-> "token", ca |-> "insecure", rate |-> "zero"
 
 \* rejection classes named by the statement
 BadEndpoints(o) == o.ep \in {"noscheme", "badurl", "mixed"}      \* ("badurl2": parses, but no usable host - only judged by "accepted => applicable")
-BadClientTLS(o) == o.cred \in {"badpair"} \/ o.ca = "badca" \/ (o.ep \in {"https", "dup"} /\ o.cred \in {"keyonly", "certonly"})
+BadClientTLS(o) == o.cred \in {"badpair"} \/ o.ca \in {"badca", "insecure+ca"} \/ (o.ep \in {"https", "dup"} /\ o.cred \in {"keyonly", "certonly"})
 BadServing(o)   == o.serving \in {"mismatch", "garbage", "badca"}
 Types(o)        == o.members \cap {"exempt", "mif", "tb"}
 BadSchema(o)    == ~o.noschema /\
